@@ -39,7 +39,12 @@ def gen(rng, tier):
     mode = "npy" if rng.random() < 0.15 else "store"
     npairs = 1 if mode == "npy" else rng.choice([1, 1, 2, 3])
     pairs = []
+    tkind = rng.choice(["sim", "sim", "nd"])
     for _ in range(npairs):
+        if pairs and rng.random() < 0.3:
+            # the same source into a second target of the same shape (equal contents before the store)
+            pairs.append(dict(pairs[-1]))
+            continue
         v = rng.choice(cands)
         X = ctx.env.vars[v]
         shape = [int(s) for s in X.shape]
@@ -62,14 +67,14 @@ def gen(rng, tier):
     scheds = [{"policy": "fifo", "sseed": 0, "release": False}]
     for _ in range(2 if tier == "quick" else 5):
         scheds.append({"policy": rng.choice(POLICIES), "sseed": rng.getrandbits(32), "release": rng.random() < 0.5})
-    return {"recipe": recipe, "pairs": pairs, "lock": lock, "mode": mode, "axis": rng.randrange(8),
+    return {"recipe": recipe, "pairs": pairs, "lock": lock, "mode": mode, "axis": rng.randrange(8), "tkind": tkind,
             "compute": rng.random() < 0.7, "return_stored": rng.random() < 0.3, "schedules": scheds,
             "fault_positions": "all" if tier == "thorough" else 3, "fseed": rng.getrandbits(32)}
 
 
 def shape_of(case, stats):
     return [[s["op"] for s in case["recipe"]["steps"]], [(p["tshape"], str(p["region"])) for p in case["pairs"]],
-            case["lock"], case["mode"], case["compute"], case["return_stored"], stats.get("writes")]
+            case.get("tkind"), case["lock"], case["mode"], case["compute"], case["return_stored"], stats.get("writes")]
 
 
 def nontrivial(case, stats):
@@ -111,7 +116,8 @@ def execute(case, stats, log):
     def make_targets():
         ts = []
         for p, x in zip(case["pairs"], xs):
-            ts.append(fakes.SimTarget(p["tshape"], x.dtype, SENTINEL[x.dtype.kind], name=f"t{len(ts)}", lock=obs_lock))
+            mk = fakes.NDTarget.make if case.get("tkind") == "nd" else fakes.SimTarget
+            ts.append(mk(p["tshape"], x.dtype, SENTINEL[x.dtype.kind], name=f"t{len(ts)}", lock=obs_lock))
         return ts
 
     def models(ts):
